@@ -568,6 +568,85 @@ pub fn table_guard() -> Vec<String> {
     problems
 }
 
+/// typed values built through the public fields of the hand-written models (not read from a primitive first):
+/// value -> p1 -> T -> p2, p1 == p2
+fn typed_values(tally: &mut Tally) {
+    fn one<T: Object + ObjectWrite>(model: &str, descr: String, v: &T, t: &mut Tally) {
+        t.evaluations += 1;
+        t.distinct.insert(fnv(format!("{}:{}", model, descr).as_bytes()));
+        let r = catch(|| -> std::result::Result<(Primitive, Primitive), String> {
+            let mut storage = FileOptions::uncached().storage();
+            let p1 = v.to_primitive(&mut storage).map_err(|e| format!("write: {}", err_variant(&e)))?;
+            let t2 = T::from_primitive(p1.clone(), &storage.resolver()).map_err(|e| format!("read of the written form {}: {}", show_prim(&p1), err_variant(&e)))?;
+            let p2 = t2.to_primitive(&mut storage).map_err(|e| format!("second write: {}", err_variant(&e)))?;
+            let r = storage.resolver();
+            Ok((deep(&p1, &r, 4), deep(&p2, &r, 4)))
+        });
+        let verdict = match r {
+            Err((loc, msg)) => Err((panic_kind(&loc), msg)),
+            Ok(Err(m)) => Err(("value-round-trip-error".to_string(), m)),
+            Ok(Ok((p1, p2))) if p1 == p2 => Ok(()),
+            Ok(Ok((p1, p2))) => Err(("value-not-idempotent".to_string(), format!("written as {}, after reading that back written as {}", show_prim(&p1), show_prim(&p2)))),
+        };
+        match verdict {
+            Ok(()) => t.outcome("ok"),
+            Err((kind, detail)) => {
+                t.outcome(&kind);
+                t.fail("c15.value", &kind, vec![format!("model={}", model), format!("value={}", descr)], format!("{} {}: {}", model, descr, detail), json!({"engine": "c15.value"}));
+            }
+        }
+    }
+    use pdf::content::Matrix;
+    use pdf::primitive::{Date, PdfString, TimeRel};
+    let coords = [None, Some(0.0f32), Some(-0.0), Some(10.5), Some(-3.0), Some(792.0)];
+    let pages = [None, Some(Ref::<Page>::new(PlainRef { id: 3, gen: 0 }))];
+    let mut dests: Vec<(String, DestView)> = vec![("Fit".into(), DestView::Fit), ("FitB".into(), DestView::FitB)];
+    for l in coords {
+        for tp in coords {
+            for zoom in [0.0f32, 1.5, -1.0] {
+                dests.push((format!("XYZ({:?},{:?},{})", l, tp, zoom), DestView::XYZ { left: l, top: tp, zoom }));
+            }
+        }
+    }
+    for x in [0.0f32, -0.0, 700.0, -12.25] {
+        dests.push((format!("FitH({})", x), DestView::FitH { top: x }));
+        dests.push((format!("FitV({})", x), DestView::FitV { left: x }));
+        dests.push((format!("FitBH({})", x), DestView::FitBH { top: x }));
+        dests.push((format!("FitR({},0,10,{})", x, x), DestView::FitR(Rectangle { left: x, bottom: 0.0, right: 10.0, top: x })));
+    }
+    for page in pages {
+        for (d, view) in &dests {
+            let dest = Dest { page, view: view.clone() };
+            one("Dest", format!("{} page={}", d, page.is_some()), &dest, tally);
+            one("MaybeNamedDest", format!("Direct {} page={}", d, page.is_some()), &MaybeNamedDest::Direct(dest), tally);
+        }
+    }
+    for name in [&b"chapter 1"[..], b"", b"(a)\\", &[0xfe, 0xff, 0, 65]] {
+        one("MaybeNamedDest", format!("Named {}", show_bytes(name)), &MaybeNamedDest::Named(PdfString::new(name.into())), tally);
+    }
+    for r in [[0.0f32, 0.0, 0.0, 0.0], [0.0, 0.0, 612.0, 792.0], [-1.5, -0.0, 1e9, 0.25], [10.0, 20.0, 5.0, 1.0]] {
+        one("Rectangle", format!("{:?}", r), &Rectangle { left: r[0], bottom: r[1], right: r[2], top: r[3] }, tally);
+    }
+    for m in [[1.0f32, 0.0, 0.0, 1.0, 0.0, 0.0], [0.0; 6], [-1.0, 0.5, 1e-3, 2.0, 300.0, -7.25]] {
+        one("Matrix", format!("{:?}", m), &Matrix { a: m[0], b: m[1], c: m[2], d: m[3], e: m[4], f: m[5] }, tally);
+    }
+    for (y, mo, d, h, mi, sec) in [(2024u16, 2u8, 29u8, 23u8, 59u8, 59u8), (0, 1, 1, 0, 0, 0), (9999, 12, 31, 0, 0, 0), (1999, 6, 15, 12, 30, 1)] {
+        for (rel, tzh, tzm) in [(TimeRel::Universal, 0u8, 0u8), (TimeRel::Later, 1, 30), (TimeRel::Earlier, 8, 0), (TimeRel::Later, 14, 59), (TimeRel::Earlier, 0, 1)] {
+            one("Date", format!("{}-{}-{} {}:{}:{} {:?} {}:{}", y, mo, d, h, mi, sec, rel, tzh, tzm), &Date { year: y, month: mo, day: d, hour: h, minute: mi, second: sec, rel, tz_hour: tzh, tz_minute: tzm }, tally);
+        }
+    }
+    {
+        use pdf::encoding::{BaseEncoding, Encoding};
+        let maps: Vec<Vec<(u32, &str)>> = vec![vec![], vec![(0, "zero")], vec![(255, "last")], vec![(65, "A"), (66, "B"), (70, "F")], vec![(253, "x"), (254, "y"), (255, "z")], vec![(0, "a"), (255, "b"), (128, "c")]];
+        for base in [BaseEncoding::StandardEncoding, BaseEncoding::WinAnsiEncoding, BaseEncoding::MacRomanEncoding, BaseEncoding::MacExpertEncoding, BaseEncoding::SymbolEncoding, BaseEncoding::None] {
+            for m in &maps {
+                let enc = Encoding { base: base.clone(), differences: m.iter().map(|(c, n)| (*c, (*n).into())).collect() };
+                one("Encoding", format!("{:?} {:?}", base, m), &enc, tally);
+            }
+        }
+    }
+}
+
 pub fn run(tier: Tier, _seed: u64, tally: &mut Tally) -> CheckMeta {
     let problems = table_guard();
     if !problems.is_empty() {
@@ -577,13 +656,14 @@ pub fn run(tier: Tier, _seed: u64, tally: &mut Tally) -> CheckMeta {
     let bound = if tier.thorough() { 8 } else { 5 };
     explore("c15.model", Limits::new(bound).wall(if tier.thorough() { 3000 } else { 600 }), tally, model_case);
     explore("c15.stream", Limits::new(0), tally, stream_case);
+    typed_values(tally);
     tally.validated = tally.evaluations;
     tally.sample(json!({"model": "Annot", "input": "<< /Subtype /Link /F 4 /ZzUnknown << /Deep [1 (x)] >> >>", "oracle": "p0 -> T -> p1 -> T -> p2: p1 == p2 and every entry of p0 in p1"}));
     tally.sample(json!({"model": "Action", "input": "<< /S /GoTo /D (named) >>"}));
     CheckMeta {
         prop: "C15",
         level: "model_checking",
-        rule: format!("{} models with reader and writer (derived structs and enums, hand-written pairs Date, Rectangle, Matrix, Dest, MaybeNamedDest, Action, Encoding, NumberTree, Font, containers): per dictionary model every field has a list of alternatives (absent, default, other values; enum fields over all variants; one-or-many arrays; nested models), explored with <= {} simultaneous field deviations plus 0-2 unknown extra keys and integer-vs-real spelling; non-dictionary models over all listed values. Oracle: p0 -> T -> p1 -> T -> p2 on a real Storage (indirect fields followed through it): p1 == p2, and for models that keep unrecognised entries every entry of p0 is in p1 up to omitted defaults and int == real. A guard compares the table with the #[pdf(key=..)] attributes of the sources. Typed streams: Stream<()> built from independently encoded data over {} filter chains x 3 data values, written with to_pdf_stream and read with from_stream: same filters, data() equals the plain data, second write identical.", models().len(), bound, CHAINS.len()),
+        rule: format!("{} models with reader and writer (derived structs and enums, hand-written pairs Date, Rectangle, Matrix, Dest, MaybeNamedDest, Action, Encoding, NumberTree, Font, containers): per dictionary model every field has a list of alternatives (absent, default, other values; enum fields over all variants; one-or-many arrays; nested models), explored with <= {} simultaneous field deviations plus 0-2 unknown extra keys and integer-vs-real spelling; non-dictionary models over all listed values. Oracle: p0 -> T -> p1 -> T -> p2 on a real Storage (indirect fields followed through it): p1 == p2, and for models that keep unrecognised entries every entry of p0 is in p1 up to omitted defaults and int == real. A guard compares the table with the #[pdf(key=..)] attributes of the sources. Typed values: destinations (every view, coordinates absent / 0 / -0 / positive / negative, with and without page), named destinations, rectangles, matrices, dates (boundary fields, every time-zone relation) and encodings (every base x 6 difference maps) built through the public fields, written, read back and written again: identical form. Typed streams: Stream<()> built from independently encoded data over {} filter chains x 3 data values, written with to_pdf_stream and read with from_stream: same filters, data() equals the plain data, second write identical.", models().len(), bound, CHAINS.len()),
         assumptions: vec!["models whose writer is todo!()/unimplemented (NameTree, Function, most ColorSpace variants) cannot be 'both read and written' and are not enumerated (ColorSpace entries therefore stay absent); fields that need a resolvable target (Annot /P, font files) stay absent".into()],
         exhaustive: true,
         bounds: json!({"field_deviations": bound}),
@@ -592,7 +672,9 @@ pub fn run(tier: Tier, _seed: u64, tally: &mut Tally) -> CheckMeta {
 
 pub fn replay(case: &Value, tally: &mut Tally) {
     let picks: Vec<u32> = case["picks"].as_array().map(|a| a.iter().map(|x| x.as_u64().unwrap() as u32).collect()).unwrap_or_default();
-    if case["engine"].as_str() == Some("c15.stream") {
+    if case["engine"].as_str() == Some("c15.value") {
+        typed_values(tally);
+    } else if case["engine"].as_str() == Some("c15.stream") {
         run_one(&picks, tally, stream_case);
     } else {
         run_one(&picks, tally, model_case);
